@@ -56,12 +56,12 @@ CLAUSES = {
         'proved for iterated shifts; for the whole simulation (10-digit loop detection, tick budget) correspondence and '
         'impl oracle only - full statement kept as a comment in the Props file',
     'without loaded ship / not running: unsimulated values': 'proved on the model (fallback_no_ship, stop_forgets); '
-        'impl: oracle and correspondence; FAILS on impl inside known finding K2 (ship removed after a read)',
-    'results depend only on current inputs': 'proved _partial (stored_results_current_partial, read_current_partial): '
-        'for every history with positive cycle times the stored results are the results of the current inputs as long '
-        'as the ghost flag of known finding K2 is down; stale_raised_only_unannounced characterises when it goes up; '
-        'sim_single_dur_irrelevant justifies ignoring cycle-time changes of a single hardener. The full statement '
-        'FAILS on the unmodified code (K2)',
+        'impl: oracle and correspondence (incl. ship removed / made unloadable after a read)',
+    'results depend only on current inputs': 'proved at full strength for every history inside the quantifier '
+        '(stored_results_current, read_current; ValidOp / ShipFnOK spell the quantifier out; sim_never_fails shows '
+        'runs with a ship succeed there, sim_single_dur_irrelevant justifies ignoring cycle-time changes of a single '
+        'hardener). Before /repo 6652e34 this clause failed (K2, fixed); its two witness histories are replayed on '
+        'every run',
 }
 LEVEL_TEXT = ('Lean theorems over an exact-rational model that mirrors eos/sim/reactive_armor_hardener.py statement by '
               'statement (shift rule, sig_round, tick iterator, loop detection, no-loop estimate, averaging, fallback, '
@@ -70,7 +70,8 @@ LEVEL_TEXT = ('Lean theorems over an exact-rational model that mirrors eos/sim/r
               'correspondence on histories against the real Fit at value level (L1) and cache level (L2).')
 LEVEL_NOTE = ('Trusted: Lean kernel + 3 standard axioms; the hand-written model is tied to the code by the differential '
               'run only (no translation of the simulator body); float rounding not modelled (fragile flags); '
-              'clause "results depend only on current inputs" is proved only outside known finding K2.')
+              'which attribute values the calculator holds (hence which changes it announces) is modelled for the '
+              'ship resonances and the hardeners shift/cycle attributes only, validated by the L2 comparison.')
 TECHNIQUE = 'Lean 4 proof (invariants over the tick loop, refinement of the stored-results layer) + regenerated constants + differential correspondence L1/L2'
 
 T = ('em', 'therm', 'kin', 'expl')
@@ -92,6 +93,7 @@ class Uni:
         self.shift = ch.mkattr(attr_id=AttrId.resist_shift_amount, stackable=True).id
         self.cyc = ch.mkattr(high_is_good=False, stackable=True).id
         self.heat = ch.mkattr(high_is_good=False, stackable=True).id
+        self.misc = ch.mkattr(stackable=True).id          # a ship attribute the simulator has nothing to do with
         self.cat = TypeCategoryId
 
         def mod(flt, tgt_attr, op, src_attr):
@@ -112,6 +114,9 @@ class Uni:
         kinds.update({'rahres:%s' % t: [(dom, self.res[t])] for t in T})
         kinds['shift'] = [(dom, self.shift)]
         kinds['cyc'] = [(dom, self.cyc)]
+        # one effect touching an attribute the simulator depends on together with one it does not react to
+        kinds['rahres+cyc'] = [(dom, self.res[t]) for t in T] + [(dom, self.cyc)]
+        kinds['misc+shift'] = [(item, self.misc), (dom, self.shift)]
         for kind, tgts in kinds.items():
             src = ch.mkattr(stackable=True).id
             eff = ch.mkeffect(category_id=EffectCategoryId.passive,
@@ -126,7 +131,7 @@ class Uni:
 
     def ship_type(self, v):
         return self._type(('ship', tuple(v)), lambda: self.ch.mktype(
-            category_id=self.cat.ship, attrs=dict(zip(self.res.values(), v))))
+            category_id=self.cat.ship, attrs={**dict(zip(self.res.values(), v)), self.misc: 100.0}))
 
     def rah_type(self, v, shift, cyc):
         """shift None: type lacks the attribute; cyc None: likewise (the effect still names the attribute)."""
@@ -184,12 +189,13 @@ def running(r):
 def rah_inputs(cfg, r):
     """(base resonances, shift attribute, cycle time in s) the simulator reads for hardener r."""
     imps = cfg['imps']
-    base = [pm(pm(v, imps.get('rahres:%s' % t)), imps.get('rahres')) for t, v in zip(T, r['v'])]
-    shift = None if r['shift'] is None else pm(r['shift'], imps.get('shift'))
+    base = [pm(pm(pm(v, imps.get('rahres:%s' % t)), imps.get('rahres')), imps.get('rahres+cyc'))
+            for t, v in zip(T, r['v'])]
+    shift = None if r['shift'] is None else pm(pm(r['shift'], imps.get('shift')), imps.get('misc+shift'))
     if r['cyc'] is None:
         dur = None
     else:
-        d = pm(r['cyc'], imps.get('cyc'))
+        d = pm(pm(r['cyc'], imps.get('cyc')), imps.get('rahres+cyc'))
         if r['state'] == 4:
             d *= 1 + (-15 / 100)
         dur = d / 1000
@@ -399,12 +405,12 @@ class Run:
             else:
                 for pos, i in enumerate(order_after):
                     base, shift, dur = rah_inputs(cfg, cfg['rahs'][i])
+                    if 'cyc' in kind:
+                        self.emit('dur %d %s' % (pos, qo(dur)))
                     if kind.startswith('rahres'):
                         self.emit('base %d %s' % (pos, qv(base)))
-                    elif kind == 'shift':
+                    if 'shift' in kind:
                         self.emit('shift %d %s' % (pos, qo(shift)))
-                    else:
-                        self.emit('dur %d %s' % (pos, qo(dur)))
         else:
             # add / rm / state: compare the simulator's hardener list before and after
             removed = op['i'] if k == 'rm' else None
@@ -470,6 +476,8 @@ class Run:
                     self.check_rah(n, vals, had, recs)
                     got['rah'] = [[vals[i][t] for t in T] for i in range(len(cfg['rahs']))] if not op.get('reads') else None
                 if op['what'] in ('ship', 'all') and ship_inputs(cfg) is not None:
+                    if op.get('misc'):
+                        im.fit.ship.attrs[im.u.misc]
                     sv = {}
                     for t in op.get('types') or T:
                         sv[t] = im.read_ship(t)
@@ -586,7 +594,7 @@ DC_CYC = [10000, 5000, 7000, 1000, 5100, 6800, 3300]
 PROF = [0, 0, 0, 1, 1, 2, 5, 25, 0.5, 3, 10]
 DC_PROF = PROF + [0.3, 12.7, 1.1]
 MULT = {'rahres': [0.9375, 0.96875, 0.984375], 'shift': [0.5, 1.5, 2.0, 0.75], 'cyc': [0.5, 0.75, 1.25, 2.0],
-        'ship': [0.5, 0.75, 0.875, 0.625]}
+        'ship': [0.5, 0.75, 0.875, 0.625], 'rahres+cyc': [0.9375, 0.96875], 'misc+shift': [0.5, 1.5, 2.0]}
 
 
 class Gen:
@@ -602,7 +610,7 @@ class Gen:
             v = [r.choice(pool)] * 4 if mode < 0.25 else [r.choice(pool) for _ in range(4)]
             if 0.25 <= mode < 0.35:
                 v[r.randrange(4)] = 1.0
-            if sum(v) * 0.9375 - 0.0625 > 3.0001:         # stays above 3 under every 'rahres' implant combination
+            if sum(v) * 0.9375 * 0.9375 - 0.0625 > 3.0001:   # stays above 3 under every 'rahres' implant combination
                 return v
 
     def ship(self):
@@ -639,6 +647,8 @@ class Gen:
         op = {'op': 'obs', 'what': what}
         if what == 'ship':
             op['types'] = r.sample(T, r.randint(1, 4))
+        if what != 'rah' and r.random() < 0.5:
+            op['misc'] = True
         if what == 'rah' and cfg['rahs'] and r.random() < 0.4:
             op['reads'] = [(r.randrange(len(cfg['rahs'])), r.choice(T))]
         return op
@@ -668,7 +678,8 @@ class Gen:
             if k == 'defp':
                 return {'op': 'defp', 'p': self.profile()}
             if k == 'imp':
-                kind = r.choice(['ship:%s' % t for t in T] + ['ship:all', 'rahres', 'rahres:%s' % r.choice(T), 'shift', 'cyc'])
+                kind = r.choice(['ship:%s' % t for t in T] + ['ship:all', 'rahres', 'rahres:%s' % r.choice(T), 'shift', 'cyc',
+                                 'rahres+cyc', 'misc+shift'])
                 if kind in cfg['imps'] and r.random() < 0.6:
                     return {'op': 'imp', 'k': kind, 'v': None}
                 return {'op': 'imp', 'k': kind, 'v': r.choice(MULT[kind.split(':')[0]])}
@@ -765,6 +776,10 @@ CORPUS = [
 # ---------------------------------------------------------------- comparison with the model
 def compare(rep, run, outs):
     """Check one executed history against the model's output lines."""
+    for what, _, n, kind in run.findings:
+        if kind == 'raise':
+            rep.disagree('rah.impl raised', 'no exception', what, {'history': run.hist, 'step': n})
+            return
     if run.issue:
         where, want, got, n = run.issue
         rep.disagree(where, want, got, {'history': run.hist, 'step': n if n is not None else len(run.hist['ops']) - 1})
@@ -850,7 +865,7 @@ def correspondence(ctx):
     rep.rules.append(RULE)
     hists = list(CORPUS) + malformed_histories()
     rnd = ctx.sub_rnd('corr')
-    hists += [gen_history(rnd) for _ in range(ctx.n(130, 1500))]
+    hists += [gen_history(rnd) for _ in range(ctx.n(130, 1300))]
     for r in run_batch(rep, hists, laws=False, fresh=False):
         account(rep, r)
     # histories on which model and impl disagree are the first thing the impl-level oracle looks at
@@ -880,7 +895,7 @@ def oracle(ctx, count=None, key='oracle'):
     """The property itself on the real code: laws at every read, and equality with a fresh build."""
     rep = ctx.report
     rnd = ctx.sub_rnd(key)
-    hists = list(CORPUS) + [gen_history(rnd) for _ in range(count or ctx.n(90, 1200))]
+    hists = list(CORPUS) + [gen_history(rnd) for _ in range(count or ctx.n(90, 1000))]
     for h, step in getattr(ctx, 'suspects', []):
         # cut right after the disagreeing step and read everything
         hists.insert(0, dict(h, ops=h['ops'][:step + 1] + [{'op': 'obs', 'what': 'all'}]))
